@@ -204,10 +204,10 @@ def emitText (o : Opts) (t : Text) : List Line :=
     (splitLines t.value.toList).map fun l => .textLine directive (String.ofList l)
 
 /-- `emitRawStatement` (always one `raw` line per source line; the text is the same). -/
-def emitRaw (o : Opts) (tok : Tok) (value : String) : List Line :=
+def emitRaw (o : Opts) (valueTok : Tok) (value : String) : List Line :=
   let lines := splitLines value.toList
   (List.range lines.length).flatMap fun i =>
-    (if o.markers then [Line.marker (tok.line + i) o.inputPath] else []) ++
+    (if o.markers then [Line.marker (valueTok.line + i) o.inputPath] else []) ++
       [.raw (String.ofList (lines.getD i []))]
 
 /-- `emitMovementStatement` -/
@@ -281,7 +281,7 @@ def emitTops (o : Opts) (patches : List ((Nat × Nat) × String)) (textLabels : 
       match t with
       | .mapscripts m => emitMapScripts o patches textLabels m
       | .script s => emitScript o patches textLabels s
-      | .raw tok v => .ok (emitRaw o tok v)
+      | .raw _ vtok v => .ok (emitRaw o vtok v)
       | .movement m => .ok (emitMovement o m)
       | .mart tok name tis items scope => .ok (emitMart o tok name tis items scope)
       | .text _ => .ok []
